@@ -293,6 +293,7 @@ fn run_sol<T: BE>(case: &Value, out: &mut Out) {
 }
 
 pub fn exec(case: &Value, out: &mut Out) {
+    if gets(case, "kind") == "eps" { match gets(case, "ty") { "f64" => run_eps::<f64>(case, out), "cx" => run_eps::<Cmplx>(case, out), t => tool_error(&format!("eps case for type {}", t)) } return; }
     let hist = matches!(gets(case, "kind"), "hist" | "seq");
     match (gets(case, "ty"), hist) {
         ("rat", true) => run_hist_from::<Rat>(case, out, 0), ("f64", true) => run_hist_from::<f64>(case, out, 0), ("cx", true) => run_hist_from::<Cmplx>(case, out, 0),
@@ -520,6 +521,12 @@ pub fn gen(tier: &str, seed: u64, out: &mut Out) {
             if graded { c["graded"] = json!(if ea > 0 { "rows" } else { "cols" }); }
             push(out, c);
         } }
+        // (c3) exact dyadic float systems with a pivot 2^-t times smaller than its diagonal entry at a chosen step (real:
+        //      t = 30, 52, 53; Complex, purely imaginary pivot: t = 30, 53, 60): regular, so solve must answer, exactly
+        if n >= 2 && n <= 6 { for s in 1..n { for (q, (cx, t)) in [(false, 30i64), (false, 52), (false, 53), (true, 30), (true, 53), (true, 60)].iter().enumerate() {
+            if quick && (q + s + n) % 3 != 0 && !(*t == 53 && (s + n) % 2 == 0) { continue; }
+            for _rep in 0..(if quick { 1 } else { 3 }) { if let Some(c) = eps_case(&mut rng, n, s, *t, *cx) { push(out, c); } }
+        } } }
         // (e) sequences on one object: det / solve / product / reads before and after EVERY mutating operation
         for ty in TYS { for _rep in 0..(if quick { 1 } else { 4 }) {
             let mut mag = 3i64; let mut best = seq_case(&mut rng, n, ty, mag);
@@ -607,4 +614,125 @@ fn seq_case(rng: &mut StdRng, n: usize, ty: &str, mag: i64) -> (Value, f64) {
         if pick == 13 { probe(rng, &sim, &mut ops); }
     }
     (json!({"kind": "seq", "ty": ty, "ctor": (["vecs", "vectors", "index"][rng.gen_range(0..3)]), "tri": tri, "ops": ops}), fitn as f64 / tot.max(1) as f64)
+}
+
+// ------------------------------------------------------------------ a pivot that is tiny relative to its diagonal entry (exact dyadic data)
+/// polynomial in eps = 2^-t with Gaussian-integer coefficients, by degree: [(re, im), ...]
+type Poly = Vec<(i64, i64)>;
+fn pjson(p: &Poly) -> Value { Value::from(p.iter().map(|c| json!([c.0, c.1])).collect::<Vec<Value>>()) }
+fn pfrom(v: &Value) -> Poly { v.as_array().unwrap().iter().map(|c| (c[0].as_i64().unwrap(), c[1].as_i64().unwrap())).collect() }
+/// value of the polynomial at eps = 2^-t as (re, im); None if a part is not exactly representable in f64
+fn pval(p: &Poly, t: i64) -> Option<(f64, f64)> {
+    let part = |sel: &dyn Fn(&(i64, i64)) -> i64| -> Option<f64> {
+        let nz: Vec<usize> = (0..p.len()).filter(|k| sel(&p[*k]) != 0).collect(); if nz.is_empty() { return Some(0.0); }
+        let (lo, hi) = (nz[0] as i64, nz[nz.len() - 1] as i64); if (hi - lo) * t > 62 { return None; }
+        let mut m: i128 = 0; for k in &nz { m += (sel(&p[*k]) as i128) << ((hi - *k as i64) * t) as u32; }        // value = m * 2^(-t hi)
+        let f = m as f64; if f as i128 != m { return None; } Some(scale2(f, -t * hi)) };
+    Some((part(&|c| c.0)?, part(&|c| c.1)?))
+}
+/// v * L * eps^(-K)... : decompose the dyadic number w = v * L * 2^(-t K) into sum_k c_k 2^(-t k), k = 0..=6, |c_k| <= 2^20
+fn digits(v: f64, l: i64, kk: i64, t: i64) -> Option<Vec<i64>> {
+    if !v.is_finite() { return None; }
+    if v == 0.0 { return Some(vec![0; 7]); }
+    let bits = v.to_bits(); let neg = (bits >> 63) != 0; let ex = ((bits >> 52) & 0x7ff) as i64; let frac = bits & ((1u64 << 52) - 1);
+    let (mut m, mut e) = if ex == 0 { (frac as i128, -1074i64) } else { ((frac | (1u64 << 52)) as i128, ex - 1075) };
+    while m % 2 == 0 { m /= 2; e += 1; }
+    if neg { m = -m; }
+    m *= l as i128; e -= t * kk;                                   // w = m * 2^e
+    let mut out = vec![];
+    for k in 0..=6i64 {
+        // c = round(w / 2^(-t k)) = round(m * 2^(e + t k))
+        let sh = e + t * k;
+        let c: i128 = if m == 0 { 0 } else if sh >= 0 { if sh > 40 { return None; } m << sh as u32 } else if -sh > 120 { 0 } else { let h = 1i128 << ((-sh - 1) as u32); (m + h) >> (-sh) as u32 };
+        if c.abs() > (1 << 20) { return None; }
+        // w -= c * 2^(-t k)
+        if c != 0 { let ec = -t * k; if ec >= e { if ec - e > 100 { return None; } m -= c << (ec - e) as u32; } else { if e - ec > 70 { return None; } m = (m << (e - ec) as u32) - c; e = ec; } }
+        while m != 0 && m % 2 == 0 { m /= 2; e += 1; }
+        out.push(c as i64);
+    }
+    if m != 0 { return None; }
+    Some(out)
+}
+fn run_eps<T: BE>(case: &Value, out: &mut Out) {
+    let cid = geti(case, "cid"); let t = geti(case, "t"); let tj = &case["tri"]; let n = getu(tj, "n");
+    let polys = |v: &Value| -> Vec<Poly> { v.as_array().unwrap().iter().map(pfrom).collect() };
+    let vals = |ps: &Vec<Poly>| -> Vec<T> { ps.iter().map(|p| { let (re, im) = pval(p, t).unwrap_or_else(|| tool_error("eps case: entry not representable")); T::from_f(re, im) }).collect() };
+    let (sub, main, sup, r) = (polys(&tj["sub"]), polys(&tj["main"]), polys(&tj["sup"]), polys(&case["r"]));
+    let res = guarded(|| { let m = Tridiagonal::with_vecs(vals(&sub), vals(&main), vals(&sup)); m.solve(&Vector::create(vals(&r))) });
+    let (panic, msg) = match &res { Ok(_) => (false, String::new()), Err(s) => (true, s.clone()) };
+    let (l, kk) = (64i64, 2i64);
+    // x_j * L * eps^K as polynomials (real and imaginary digits interleaved into Gaussian coefficients)
+    let xs: Option<Vec<Poly>> = res.as_ref().ok().and_then(|x| x.vec.iter().map(|v| { let (re, im) = v.to_c(); let a = digits(re, l, kk, t)?; let b = digits(im, l, kk, t)?; Some(a.iter().zip(b.iter()).map(|(p, q)| (*p, *q)).collect::<Poly>()) }).collect());
+    let xsj = match &xs { Some(v) => Value::from(v.iter().map(pjson).collect::<Vec<Value>>()), None => Value::from((0..n).map(|_| json!([[BAD, 0]])).collect::<Vec<Value>>()) };
+    out.ev(json!({"op": "solve_eps", "ty": T::NAME, "cid": cid, "k": 0, "t": t, "pre": {"n": n, "sub": tj["sub"], "main": tj["main"], "sup": tj["sup"]}, "r": case["r"],
+        "panic": panic, "msg": msg, "zero": panic && mentions_zero(&msg), "xs": xsj, "L": l, "K": kk}));
+}
+
+// ---- independent simulations used only to SELECT inputs on which the float elimination is exact
+type C = (f64, f64);
+fn c_sub(a: C, b: C) -> C { (a.0 - b.0, a.1 - b.1) }
+fn c_mul(a: C, b: C) -> C { (a.0 * b.0 - a.1 * b.1, a.0 * b.1 + a.1 * b.0) }
+fn c_div(a: C, b: C) -> C { let d = b.0 * b.0 + b.1 * b.1; ((a.0 * b.0 + a.1 * b.1) / d, (a.1 * b.0 - a.0 * b.1) / d) }
+/// the Thomas algorithm in f64 (real) or with the textbook complex formulas; every stored value is returned
+fn thomas_float(sub: &[C], main: &[C], sup: &[C], r: &[C], cx: bool) -> Option<Vec<C>> {
+    let n = main.len(); let mul = |a: C, b: C| if cx { c_mul(a, b) } else { (a.0 * b.0, 0.0) }; let div = |a: C, b: C| if cx { c_div(a, b) } else { (a.0 / b.0, 0.0) };
+    let mut stored = vec![]; let mut beta = main[0]; if beta == (0.0, 0.0) { return None; }
+    let mut u = vec![(0.0, 0.0); n]; let mut gamma = vec![(0.0, 0.0); n]; u[0] = div(r[0], beta); stored.push(u[0]);
+    for j in 1..n { gamma[j] = div(sup[j - 1], beta); beta = c_sub(main[j], mul(sub[j - 1], gamma[j])); if beta == (0.0, 0.0) { return None; }
+        u[j] = div(c_sub(r[j], mul(sub[j - 1], u[j - 1])), beta); stored.push(gamma[j]); stored.push(beta); stored.push(u[j]); }
+    for j in (0..n.saturating_sub(1)).rev() { let t = mul(gamma[j + 1], u[j + 1]); u[j] = c_sub(u[j], t); stored.push(u[j]); }
+    if stored.iter().all(|p| p.0.is_finite() && p.1.is_finite()) { Some(stored) } else { None }
+}
+/// the same over exact Gaussian rationals
+fn thomas_exact(sub: &[super::banded::GR], main: &[super::banded::GR], sup: &[super::banded::GR], r: &[super::banded::GR]) -> Option<Vec<super::banded::GR>> {
+    let n = main.len(); let mut stored = vec![]; let mut beta = main[0]; if beta.is_zero() { return None; }
+    let z = super::banded::GR::int(0, 0); let mut u = vec![z; n]; let mut gamma = vec![z; n]; u[0] = r[0].div(beta); stored.push(u[0]);
+    for j in 1..n { gamma[j] = sup[j - 1].div(beta); beta = main[j].sub(sub[j - 1].mul(gamma[j])); if beta.is_zero() { return None; }
+        u[j] = r[j].sub(sub[j - 1].mul(u[j - 1])).div(beta); stored.push(gamma[j]); stored.push(beta); stored.push(u[j]); }
+    for j in (0..n.saturating_sub(1)).rev() { let t = gamma[j + 1].mul(u[j + 1]); u[j] = u[j].sub(t); stored.push(u[j]); }
+    Some(stored)
+}
+fn pmul(a: &Poly, b: &Poly) -> Poly { if a.is_empty() || b.is_empty() { return vec![]; } let mut o = vec![(0i64, 0i64); a.len() + b.len() - 1];
+    for (i, x) in a.iter().enumerate() { for (j, y) in b.iter().enumerate() { o[i + j].0 += x.0 * y.0 - x.1 * y.1; o[i + j].1 += x.0 * y.1 + x.1 * y.0; } } o }
+fn padd(a: &Poly, b: &Poly) -> Poly { (0..a.len().max(b.len())).map(|k| { let x = a.get(k).cloned().unwrap_or((0, 0)); let y = b.get(k).cloned().unwrap_or((0, 0)); (x.0 + y.0, x.1 + y.1) }).collect() }
+/// one case: n, tiny pivot a*c*u*eps at step s (u = 1, or i for Complex), everything else ordinary; the right-hand side is T x
+/// for a small x; accepted only if an independent float simulation of the elimination reproduces the exact values
+fn eps_case(rng: &mut StdRng, n: usize, s: usize, t: i64, cx: bool) -> Option<Value> {
+    use super::banded::GR;
+    let pm = |rng: &mut StdRng, v: &[i64]| -> i64 { v[rng.gen_range(0..v.len())] * if rng.gen_bool(0.5) { 1 } else { -1 } };
+    let u: (i64, i64) = if cx { (0, 1) } else { (1, 0) };
+    for _ in 0..4000 {
+        let beta: Vec<i64> = (0..n).map(|_| pm(rng, &[1, 1, 2])).collect();
+        let a: Vec<i64> = (0..n - 1).map(|j| if j + 1 == s { pm(rng, &[1]) } else { pm(rng, &[1, 2, 3]) }).collect();
+        let g: Vec<i64> = (0..n - 1).map(|_| rng.gen_range(-3i64..=3)).collect(); let c = pm(rng, &[1, 2]);
+        let konst = |x: i64| -> Poly { vec![(x, 0)] };
+        let mut sub: Vec<Poly> = vec![]; let mut main: Vec<Poly> = vec![konst(beta[0])]; let mut sup: Vec<Poly> = vec![];
+        for j in 0..n - 1 {
+            sub.push(konst(a[j]));
+            // pivot polynomial of step j and multiplier g_j
+            let bj: Poly = if j == s { vec![(0, 0), (a[s - 1] * c * u.0, a[s - 1] * c * u.1)] } else { konst(beta[j]) };
+            let gj: Poly = if j + 1 == s { vec![(c, 0), (-c * u.0, -c * u.1)] } else { konst(g[j]) };
+            sup.push(pmul(&bj, &gj));
+            let bnext: Poly = if j + 1 == s { vec![(0, 0), (a[s - 1] * c * u.0, a[s - 1] * c * u.1)] } else { konst(beta[j + 1]) };
+            main.push(padd(&bnext, &pmul(&konst(a[j]), &gj)));
+        }
+        let x: Vec<Poly> = (0..n).map(|_| { let v = [0i64, 1, 1, 2, 2, 4][rng.gen_range(0..6)] * if rng.gen_bool(0.5) { 1 } else { -1 }; if cx && rng.gen_bool(0.4) { vec![(0, v)] } else { konst(v) } }).collect();
+        let r: Vec<Poly> = (0..n).map(|i| { let mut acc = pmul(&main[i], &x[i]); if i > 0 { acc = padd(&acc, &pmul(&sub[i - 1], &x[i - 1])); } if i + 1 < n { acc = padd(&acc, &pmul(&sup[i], &x[i + 1])); } acc }).collect();
+        let fv = |ps: &Vec<Poly>| -> Option<Vec<C>> { ps.iter().map(|p| pval(p, t)).collect() };
+        let (fs, fm, fp, fr) = match (fv(&sub), fv(&main), fv(&sup), fv(&r)) { (Some(a), Some(b), Some(c), Some(d)) => (a, b, c, d), _ => continue };
+        let ok = guarded(|| {
+            let gr = |v: &Vec<C>| -> Option<Vec<GR>> { v.iter().map(|p| Some(GR { re: f64_to_rat(p.0)?, im: f64_to_rat(p.1)? })).collect() };
+            let (es, em, ep, er) = (gr(&fs)?, gr(&fm)?, gr(&fp)?, gr(&fr)?);
+            let fl = thomas_float(&fs, &fm, &fp, &fr, cx)?; let ex = thomas_exact(&es, &em, &ep, &er)?;
+            if fl.len() != ex.len() { return None; }
+            for (a, b) in fl.iter().zip(ex.iter()) { if f64_to_rat(a.0)? != b.re || f64_to_rat(a.1)? != b.im { return None; } }
+            // the solution must be expressible with the digits the event format offers
+            for k in 0..n { let v = fl[fl.len() - 1 - k]; digits(v.0, 64, 2, t)?; digits(v.1, 64, 2, t)?; }
+            Some(())
+        });
+        if !matches!(ok, Ok(Some(()))) { continue; }
+        let pj = |ps: &Vec<Poly>| Value::from(ps.iter().map(pjson).collect::<Vec<Value>>());
+        return Some(json!({"kind": "eps", "ty": if cx { "cx" } else { "f64" }, "t": t, "step": s, "tri": {"n": n, "sub": pj(&sub), "main": pj(&main), "sup": pj(&sup)}, "r": pj(&r)}));
+    }
+    None
 }
